@@ -129,6 +129,13 @@ theorem fock_loss_local {K : Type} [CommRing K] (e : Nat → Nat → K) (T : K)
       ∑ v ∈ Finset.range D, ρ (SFV.Fock.upd (SFV.Fock.upd idx (2 * m) v) (2 * m + 1) v) :=
   SFV.Fock.loss_trace_preserving e T he D m ρ idx
 
+/-- **`Del` on the Fock simulator keeps the remaining modes in index order**: `dealloc` traces the listed modes out
+(`partialTrace`: kept mode `i` is read at axis position `keptPos traced i`), and those positions are ordered like the indices of
+the kept modes — for every register size and every set of deleted modes -/
+theorem fock_dealloc_order (traced : List Nat) {i j : Nat} (hij : i < j) (hi : traced.contains i = false) :
+    SFV.Fock.keptPos traced i < SFV.Fock.keptPos traced j :=
+  SFV.Fock.keptPos_strictMono traced hij hi
+
 /-- **`New` leaves every old mode alone** (Gaussian simulator): all first and second moments among the old modes are kept,
 whatever the number of old and new modes -/
 theorem gaussian_add_mode_local {K : Type} [CommRing K] (st : SFV.Gauss.GS K) (m i j : Nat) (hi : i < st.n) (hj : j < st.n) :
